@@ -1,4 +1,4 @@
-"""Mutation catalogue of C18 (identifier / qualifier extraction, LOCUS_TAG grouping).  Run with the findings K18.1-3
+"""Mutation catalogue of C18 (identifier / qualifier extraction, LOCUS_TAG grouping).  Run with the findings K30-K32
 either repaired or listed as known, otherwise the unchanged tree already exits 1 and every mutation counts as caught."""
 F = "inscripta/biocantor/io/features/__init__.py"
 P = "inscripta/biocantor/io/genbank/parser.py"
